@@ -420,22 +420,38 @@ class LoopAnalysis:
         def w_loop(lp):
             self.decide_loop(fn, lp)
             inner = heaviest(set(lp.blocks), lp.children, lp.header, lp.header)
-            dbgline = None
-            for s in body.blocks.get(lp.header, []):
-                m = llir.RE_DBG.search(s)
-                if m:
-                    dbgline = int(m.group(1))
-                    break
+            # the source function that owns the loop: the deepest inlined frame
+            # shared by every instruction of the header and the latches
+            chains = []
+            for b in [lp.header] + list(lp.latches):
+                for ins in body.blocks.get(b, []):
+                    m = llir.RE_DBG.search(ins)
+                    if m:
+                        fr = self.mod.frames(int(m.group(1)))
+                        if fr:
+                            chains.append(list(reversed(fr)))
             chain = ""
-            if dbgline is not None:
-                fr = self.mod.frames(dbgline)
+            src_fn = None
+            if chains:
+                common = []
+                for i in range(min(len(c) for c in chains)):
+                    sids = {c[i][0] for c in chains}
+                    if len(sids) != 1:
+                        break
+                    common.append(chains[0][i])
+                for (sid, line, col) in reversed(common):
+                    path, where, _f = self.an.frame_info(sid)
+                    if where == "crate":
+                        src_fn = engine_a.normalise_fn(path)
+                        break
                 chain = " <- ".join("%s:%s(%s)" % (self.an.frame_info(sid)[2].rsplit("/", 1)[-1], line,
                                                    self.an.frame_info(sid)[0].rsplit("::", 1)[-1])
-                                    for (sid, line, col) in fr[:6])
+                                    for (sid, line, col) in list(reversed(common))[:6])
             rep = {"fn": llir.demangle_legacy(fn) if fn.startswith("_ZN") else fn, "header": lp.header,
                    "depth": lp.depth, "rule": lp.rule,
                    "bound": lp.bound if lp.bound != UNBOUNDED else "inf",
-                   "scev_max": lp.scev_max, "symbolic": lp.symbolic, "where": chain}
+                   "scev_max": lp.scev_max, "symbolic": lp.symbolic, "where": chain,
+                   "src_fn": src_fn or "(outside the crate)"}
             if rep not in reports:
                 reports.append(rep)
             return lp.bound * (1 + inner)
